@@ -106,6 +106,11 @@ class UUIDChild(uuid.UUID):
     """A subclass of a registered third-party type; not registered itself."""
 
 
+@dataclass
+class Temp(Shape):
+    """A serialiser class whose name the fault injector deletes from / rebinds in this module between two reads."""
+
+
 class Plain:
     """A class that is neither a serialiser nor registered."""
 
